@@ -32,6 +32,18 @@ INFO = {
  "C19": ("round-trip PBT + independent big-integer / calendar evaluation of generated strings (rapid); exhaustive enumeration of all 2^31 durations, 2^32 timestamps and all strings up to length 5 in the thorough tier",
          "parse(print(x)) == x and exact-meaning checks on generated values and strings; the thorough tier enumerates the two 32-bit domains and the short-string space completely, through the same judges. Exploration (exhaustive on the enumerated sub-domains).",
          TB + "Years outside 1970-2106, redundant leading zeros and fractional seconds get no verdict."),
+ "C08": ("PBT of the copy command at a controlled clock (synctest) with a slot-wise oracle from library fetches; metamorphic: repeat = no-op, copy;diff = clean",
+         "Generated sources/destinations/windows/selections; after a successful copy every selected slot is compared with the source, the copy is repeated (bytes unchanged) and diff is run. Exploration.",
+         TB + "Library fetches (checked by C01/C04) provide ground truth; realistic clocks; Z4."),
+ "C09": ("PBT of diff with an independently computed difference set; metamorphic symmetry (swap sides), self/copy = clean",
+         "The listed lines and the verdict are compared with the set of differing slots computed from library fetches; sides are swapped; glob runs with mixed verdicts. Exploration.",
+         TB + "Z4 (+0/-0)."),
+ "C10": ("PBT of sum against an independent slot-wise NaN-skipping sum over generated trees (exactly summable values)",
+         "Generated item trees and patterns; parsed output compared with an independent sum; error classes for mismatching layouts and empty matches. Exploration.",
+         TB + "Exactly summable values make the oracle independent of summation order; stdlib glob decides which files match."),
+ "C11": ("PBT of sum-copy / sum-diff: destination vs. independent sum, metamorphic (sum-copy;sum-diff = clean, repeat = no-op), perturbation => exact listing",
+         "After sum-copy every selected destination slot equals the independent sum (NaN included); sum-diff is clean; after perturbing slots sum-diff lists exactly the deviations. Exploration.",
+         TB + "Z5 (missing side in sum-diff) not asserted."),
  "C04": ("PBT against an executable contract in exact arithmetic (rapid), metamorphic over stored content",
          "The fetch shape contract is evaluated in int64 arithmetic and compared for generated (layout, clock, window, id) tuples on empty, partly written and written files. Exploration.",
          TB + "Clock in zone Z7."),
